@@ -151,7 +151,7 @@ TrLen ==
   /\ UNCHANGED set
 
 TrClear ==
-  /\ Call("clear")
+  /\ (Call("clear") \/ Call("clear_nd") \/ Call("reset_nd"))
   /\ Step(<< O("C17", "clear.len", Rec[l].len = 0) >>)
   /\ set' = [set EXCEPT ![Rec[l].t] = {}]
 
